@@ -19,6 +19,8 @@
 
 #include <optional>
 #include <sstream>
+#include <stdexcept>
+#include <string>
 
 #include <json/reader.h>
 
@@ -143,6 +145,15 @@ std::unique_ptr<IR::Root> JsonConfigParser::parse(const std::string& input) {
   Json::Value json_root;
   getJson(json_root, input);
   auto ir_root = std::make_unique<IR::Root>();
+
+  // iterating a value that is no list silently yields nothing: a document with
+  // "rulesets": true would be accepted as an empty configuration
+  for (const char* list : {"rulesets", "prekill_hooks"}) {
+    if (json_root.isObject() && json_root.isMember(list) &&
+        !json_root[list].isArray()) {
+      throw std::runtime_error(std::string("\"") + list + "\" must be a list");
+    }
+  }
 
   for (const auto& ruleset : json_root.get("rulesets", {})) {
     ir_root->rulesets.emplace_back(parseRuleset(ruleset));
